@@ -480,7 +480,31 @@ def valid_schema(rng, n_types=8, n_funcs=4):
             for k in range(rng.randrange(2, 4)):
                 lines.append(f"{ns}{nm}{'abc'[k]}{tag()} {fields()} = {tn};")
             uni.append(tn)
+    # namespaced constructors whose local name is (or starts with) a primitive name: they are NOT the primitive
+    # wrappers the listing skips and must be listed
+    prims = ["int", "long", "float", "double", "string"]
+    prim_ns = rng.sample(["geo.", "pq.", "zx9."], 2)
+    for ns in prim_ns:
+        for pn in rng.sample(prims, rng.randrange(1, 4)):
+            nm = pn + rng.choice(["", "", "x", "2", "_t"])
+            if (ns + nm).lower() in used:
+                continue
+            used.add((ns + nm).lower())
+            cn, tn = ns + nm, ns + nm[0].upper() + nm[1:]
+            lines.append(f"{cn}{tag()} {fields()} = {tn};")
+            plain.append((cn, tn))
+    if rng.random() < 0.5:
+        nm = rng.choice(prims) + rng.choice(["er", "s", "1"])
+        if nm.lower() not in used:
+            used.add(nm.lower())
+            lines.append(f"{nm}{tag()} {fields()} = {nm[0].upper() + nm[1:]};")
+            plain.append((nm, nm[0].upper() + nm[1:]))
     lines.append("---functions---")
+    for ns in prim_ns:
+        pn = rng.choice(prims)
+        if (ns + pn).lower() not in used:
+            used.add((ns + pn).lower())
+            lines.append(f"@read {ns}{pn}{tag()} {fields()} = Int;")
     for _ in range(n_funcs):
         ns = rng.choice(nss)
         nm = fresh("g")
